@@ -42,14 +42,8 @@ def nextW : List UInt32 → Option UInt32
       some (rotl (w3 ^^^ w8 ^^^ w14 ^^^ w16) 1)
   | _ => none
 
-def extend : Nat → List UInt32 → List UInt32
-  | 0, ws => ws
-  | n+1, ws => match nextW ws with
-    | some w => extend n (w :: ws)
-    | none => ws
-
 /-- `W_0 … W_79` -/
-def schedule (block : Bytes) : List UInt32 := (extend 64 (wordsBE block).reverse).reverse
+def schedule (block : Bytes) : List UInt32 := (extendSchedule nextW 64 (wordsBE block).reverse).reverse
 
 /-- §6.1.2 step 3, one value of `t` -/
 def round (r : Regs) (t : Nat) (w : UInt32) : Regs :=
